@@ -17,8 +17,11 @@
 //   a -> A:<ok|e1..e4>              (classes of the C15 harness)
 //   f -> F:<ok|err>|<obs before the call>|<obs after>     s -> S:<obs>
 //   obs := <GetHighestFinalisedHash as block index|err>;<n=GetHashByNumber(n) or n=! on error,... for n in 0..nblk+1>;
-//          <per block 0..nblk one hex digit: 8 HasHeader, 4 GetHeader ok, 2 in unfinalisedBlocks,
-//           1 Tries.get(state root) != nil>;<Tries.len>;<BestBlockHash>
+//          <per block 0..nblk two hex digits: 10 header in the database (HasHeaderInDatabase),
+//           8 HasHeader, 4 GetHeader ok, 2 in unfinalisedBlocks, 1 Tries.get(state root) != nil>;
+//          <Tries.len>;<BestBlockHash>;
+//          <n=the database's own number index db.Get(headerHashKey(n)) as block index, or n=- when
+//           absent,... for n in 0..nblk+1>
 package state
 
 import (
@@ -186,10 +189,22 @@ func c17Run(in string) string {
 			if bs.tries.get(blks[i].header.StateRoot) != nil {
 				v |= 1
 			}
-			fl.WriteString(vu.X(uint64(v)))
+			if has, err := bs.HasHeaderInDatabase(h); err == nil && has {
+				v |= 16
+			}
+			fmt.Fprintf(&fl, "%02x", v)
 		}
-		return fmt.Sprintf("%s;%s;%s;%s;%s", hi, strings.Join(byn, ","), fl.String(),
-			vu.X(uint64(bs.tries.len())), id(bs.BestBlockHash()))
+		var dbn []string
+		for k := 0; k <= n+1; k++ {
+			bh, err := bs.db.Get(headerHashKey(uint64(k)))
+			if err != nil {
+				dbn = append(dbn, vu.X(uint64(k))+"=-")
+			} else {
+				dbn = append(dbn, vu.X(uint64(k))+"="+id(common.NewHash(bh)))
+			}
+		}
+		return fmt.Sprintf("%s;%s;%s;%s;%s;%s", hi, strings.Join(byn, ","), fl.String(),
+			vu.X(uint64(bs.tries.len())), id(bs.BestBlockHash()), strings.Join(dbn, ","))
 	}
 
 	hs := make([]string, len(blks))
@@ -300,7 +315,17 @@ func c17Exhaustive(r *vu.RNG, maxBlocks int, emit func(string)) {
 			for f1 := 0; f1 <= n+1; f1++ {
 				ops := base + fmt.Sprintf(" f%s.1.0", vu.X(uint64(f1)))
 				for f2 := 0; f2 <= n+1; f2++ {
-					emit(ops + fmt.Sprintf(" f%s.2.0", vu.X(uint64(f2))))
+					// ... and a last request for genesis (stale once the head has moved) that
+					// re-uses the round and set id of the previous request
+					emit(ops + fmt.Sprintf(" f%s.2.0 f0.2.0", vu.X(uint64(f2))))
+				}
+			}
+			// set ids: the first request opens set 1, the second one comes with the stale set 0
+			// (refused whatever its target), then again with set 1, then with a lower round
+			for f1 := 0; f1 <= n; f1++ {
+				for f2 := 0; f2 <= n+1; f2++ {
+					emit(base + fmt.Sprintf(" f%s.5.1 f%s.6.0 s f%s.7.1 f%s.2.1", vu.X(uint64(f1)),
+						vu.X(uint64(f2)), vu.X(uint64(f2)), vu.X(uint64(f2))))
 				}
 			}
 		})
@@ -341,7 +366,8 @@ func c17Random(r *vu.RNG, emit func(string)) {
 			}
 		}
 	}
-	lowSetID := r.Chance(1, 12)
+	lowSetID := r.Chance(1, 4)
+	freeRounds := r.Chance(1, 3) // rounds need not increase (gossamer issue 3150)
 	var ops []string
 	round, setid := uint64(1), uint64(0)
 	nfin := 0
@@ -369,7 +395,11 @@ func c17Random(r *vu.RNG, emit func(string)) {
 				if lowSetID && setid > 0 && r.Chance(1, 3) {
 					sid = setid - 1
 				}
-				ops = append(ops, fmt.Sprintf("f%s.%s.%s", vu.X(uint64(target)), vu.X(round), vu.X(sid)))
+				rd := round
+				if freeRounds {
+					rd = uint64(r.Intn(4))
+				}
+				ops = append(ops, fmt.Sprintf("f%s.%s.%s", vu.X(uint64(target)), vu.X(rd), vu.X(sid)))
 				round++
 				nfin++
 			}
@@ -383,6 +413,13 @@ func c17Gen(r *vu.RNG, n int, emit func(string)) {
 	emit("t 4 0.1.0.0.1 0.1.0.0.2 0.1.0.0.3 0.1.0.0.4 a1 a2 a3 a4 s f4.1.0 f2.2.0")
 	// stale, sibling, unknown, repeated targets
 	emit("t 5 0.1.0.0.1 1.2.0.0.2 1.2.1.0.3 2.3.0.0.4 3.3.0.0.5 a1 a2 a3 a4 a5 f2.1.0 f1.2.0 f3.3.0 f9.4.0 f2.5.0 f4.6.0 f0.7.0")
+	// a stale set id for a held target: refused, and nothing may have been written; the same
+	// target is accepted afterwards with the current set id (pinned code: refused for ever)
+	emit("t 2 0.1.0.0.1 1.2.0.0.2 a1 a2 f1.1.1 f2.2.0 s f2.3.1 s")
+	emit("t 4 0.1.0.0.1 1.2.0.0.2 2.3.1.0.3 1.2.0.0.4 a1 a2 a3 a4 f1.1.2 f3.2.1 f3.2.0 s f2.1.2 f3.0.2 f4.9.9")
+	// a refused request (stale target) that re-uses the (round, set id) of the current head must
+	// not move GetHighestFinalisedHash
+	emit("t 2 0.1.0.0.1 1.2.0.0.2 a1 a2 f2.3.0 f1.3.0 s f0.3.0 s")
 	// shared state roots between an abandoned and a kept block
 	emit("t 3 0.1.0.0.1 0.1.0.0.1 1.2.0.0.2 a1 a2 a3 f1.1.0 s")
 	max := 3
